@@ -22,8 +22,17 @@ def setup(c, n, rt):
     type(c).get_page.cache_clear()
 
 
-def analyze(c, n, inc, incR, flags, rt, rflag):
-    """inc[i][j] in {0: no, 1: i includes j (name as stored), 2: i includes j written with a lower-case initial};
+VARIANTS = {
+    "lc": lcfirst,  # lower-case initial
+    "us": lambda s: s.replace(" ", "_"),  # underscore written for a space
+    "pfx": lambda s: "Template:" + s,  # namespace prefix written out
+    "lcpfx": lambda s: "template:" + lcfirst(s),
+}
+
+
+def analyze(c, n, inc, incR, flags, rt, rflag, variant="lc"):
+    """inc[i][j] in {0: no, 1: i includes j (name as stored), 2: i includes j written in another spelling that get_page /
+    expansion resolve to the same page (VARIANTS[variant])};
     incR[i]: i includes the redirect page by name; rt: redirect target index (-1 none, n dangling)."""
     setup(c, n, rt)
     used = {}
@@ -33,7 +42,7 @@ def analyze(c, n, inc, incR, flags, rt, rflag):
             if inc[i][j] == 1:
                 s.add(NAMES[j])
             elif inc[i][j] == 2:
-                s.add(lcfirst(NAMES[j]))
+                s.add(VARIANTS[variant](NAMES[j]))
         if rt >= 0 and incR[i]:
             s.add(RNAME)
         used[NAMES[i]] = s
@@ -71,15 +80,15 @@ def reference(n, inc, incR, flags, rt, rflag):
     return marked
 
 
-def agree(n, inc, incR, flags, rt, rflag) -> bool:
-    return analyze(ctx, n, inc, incR, flags, rt, rflag) == reference(n, inc, incR, flags, rt, rflag)
+def agree(n, inc, incR, flags, rt, rflag, variant="lc") -> bool:
+    return analyze(ctx, n, inc, incR, flags, rt, rflag, variant) == reference(n, inc, incR, flags, rt, rflag)
 
 
-def replay_case(n, inc, incR, flags, rt, rflag):
+def replay_case(n, inc, incR, flags, rt, rflag, variant="lc"):
     c = Wtp(quiet=True, quiet_output=True)
-    got = analyze(c, n, inc, incR, flags, rt, rflag)
+    got = analyze(c, n, inc, incR, flags, rt, rflag, variant)
     want = reference(n, inc, incR, flags, rt, rflag)
-    edges = [f"{NAMES[i]} includes {NAMES[j] if inc[i][j] == 1 else lcfirst(NAMES[j])}" for i in range(n) for j in range(n) if inc[i][j]]
+    edges = [f"{NAMES[i]} includes {NAMES[j] if inc[i][j] == 1 else VARIANTS[variant](NAMES[j])!r}" for i in range(n) for j in range(n) if inc[i][j]]
     edges += [f"{NAMES[i]} includes {RNAME}" for i in range(n) if rt >= 0 and incR[i]]
     red = "" if rt < 0 else f"; redirect {RNAME} -> {NAMES[rt] if rt < n else 'Nowhere'}{' (flagged)' if rflag else ''}"
     sig = f"analyze_templates on templates {NAMES[:n]}: {'; '.join(edges) or 'no inclusions'}; flagged {[NAMES[i] for i in range(n) if flags[i]]}{red}"
